@@ -120,6 +120,34 @@ def check(model, rep, tier):
             '%s:params-are-stored' % cls.site,
             'an __init__ parameter is not stored in the same-named field',
             {'params': params}, line=init.node.lineno)
+  # every field enters the compared value as itself (a frozenset compares by
+  # content; a tuple built from it compares by iteration order)
+  src_fn = as_tuple or eq
+  par = {b: a for a in ast.walk(src_fn.node) for b in ast.iter_child_nodes(a)}
+  bad_wrap = []
+  for r in ast.walk(src_fn.node):
+    if not (isinstance(r, ast.Return) and r.value is not None):
+      continue
+    for n in ast.walk(r.value):
+      if isinstance(n, ast.Attribute) and isinstance(n.value, ast.Name) and \
+          n.value.id == 'self' and n.attr in fields:
+        x = n
+        while par.get(x) is not None and par[x] is not r:
+          y = par[x]
+          ok_ = isinstance(y, ast.Tuple) or (isinstance(y, ast.BinOp) and isinstance(
+              y.op, ast.Add)) or (isinstance(y, ast.Call) and core.dotted(y.func) in (
+                  'frozenset',) and len(y.args) == 1 and y.args[0] is x) or \
+              isinstance(y, ast.Compare)
+          if not ok_:
+            bad_wrap.append('%s via %s' % (n.attr, core.norm(y)[:50]))
+            break
+          x = y
+  rep.check(not bad_wrap, 'OPT-FIELDS', '%s:fields-compared-as-themselves' % cls.site,
+            'a field enters the compared / hashed value through an expression that '
+            'does not preserve equality of the field (e.g. tuple(frozenset) depends '
+            'on iteration order, len() forgets the members)', {'wrapped': bad_wrap},
+            line=src_fn.node.lineno,
+            witness='the same feature set spelled in two orders')
   # only __init__ assigns to self (value semantics: no memo, no mutation)
   writers = []
   for nm, f in cls.methods.items():
